@@ -75,7 +75,7 @@ let split_cmp (s : string) : char * string =
   if s = "" then failwith "bad cmp";
   let n = String.length s in
   match s.[n - 1] with
-  | 'd' | 't' | 'v' | 'x' | 'k' | 'e' as c when n > 1 -> (c, String.sub s 0 (n - 1))
+  | 'd' | 't' | 'v' | 'x' | 'k' | 'e' | 'q' as c when n > 1 -> (c, String.sub s 0 (n - 1))   (* q: -1/0/1 (it also reads its tree) *)
   | _ -> (' ', s)
 (* the position of an element in the order (equal positions = equivalent elements) *)
 let pos_for (s : string) : e -> int =
